@@ -75,6 +75,19 @@ TrafficFollowsKnowledge(probe, parked, att, pth) ==
                ELSE IF parked[d] = 1 THEN em = {}
                ELSE em = {<<"whois", s, 0>> : s \in att}
 
+\* A node with two ports forwards: a packet for destination network d arriving on network tin goes -- once -- to the router
+\* the lookup via one of its networks names; when no lookup succeeds it asks Who-Is-Router on the other network and the
+\* packet is dropped.  (tr.em = <<>>: no transit probe in this rig / a node with one port)
+TransitFollowsKnowledge(tr, att, pth) ==
+    tr.em = <<>> \/
+    \A d \in DNets :
+        LET em   == ToSet(tr.em[d])
+            srcs == {s \in att : <<s, d>> \in DOMAIN pth}
+        IN  /\ Cardinality(em) = Len(tr.em[d])
+            /\ IF srcs # {}
+               THEN \E s \in srcs : em = {<<"data", s, pth[<<s, d>>]>>}
+               ELSE em = {<<"whois", s, 0>> : s \in att \ {tr.tin}}
+
 \* An announcement that makes a destination reachable releases what was parked for it: packets that waited for a
 \* path to d go to the announcing router, nothing stays parked for a network the announcement listed ("parked" rig;
 \* pk.before / pk.waiting: a packet for d was parked before / is still parked after the operation, pk.released: the
@@ -103,7 +116,8 @@ Failing(e) ==
     \* (judged against coherent knowledge only: otherwise the step is blamed for the incoherence)
     (IF ParkedReleased(e) THEN {} ELSE {"TrafficFollowsKnowledge:ParkedReleased"}) \cup
     (IF e.probe = <<>> \/ ~(TypeOK' /\ Coherent') \/ Ghosts(e) THEN {}
-     ELSE IF TrafficFollowsKnowledge(e.probe, e.parked, attached', path') THEN {} ELSE {"TrafficFollowsKnowledge"})
+     ELSE IF TrafficFollowsKnowledge(e.probe, e.parked, attached', path') /\ TransitFollowsKnowledge(e.tr, attached', path')
+          THEN {} ELSE {"TrafficFollowsKnowledge"})
 
 Step ==
     /\ l <= Len(T)
